@@ -44,11 +44,14 @@ structure QItem where
 /-- what `check_file` reads and writes: result-side state of the `Searcher` -/
 structure ResSt where
   found : Nat := 0
-  out : Str := []                                  -- bytes written to stdout so far
+  outRev : List Str := []                          -- chunks written to stdout so far, latest first
   buffer : List (Criteria × Str) := []             -- insertion history of `output_buffer` (arrival order)
   raw : List Memo := []                            -- raw_output_buffer
   cache : RxCache := []
   inexact : Bool := false                          -- some printed cell renders an inexact float
+
+/-- bytes written to stdout so far -/
+def ResSt.out (st : ResSt) : Str := st.outRev.reverse.flatten
 
 /-- what only the traversal reads and writes -/
 structure WalkSt where
@@ -68,9 +71,9 @@ inductive Abort where
   | unsupported (why : String)
   deriving Repr
 
-def liftE {α : Type} (out : Str) : EM α → Except Abort α
+def liftE {α : Type} (out : Unit → Str) : EM α → Except Abort α
   | .ok a => .ok a
-  | .error (.exit2 m) => .error (.exit2 m out)
+  | .error (.exit2 m) => .error (.exit2 m (out ()))
   | .error (.unsupported w) => .error (.unsupported w)
 
 structure Plan where
@@ -104,7 +107,7 @@ def checkFile (p : Plan) (st : ResSt) (e : Entry) : Except Abort ResSt :=
     match p.q.expr with
     | none => .ok (true, st.cache)
     | some x =>
-      match liftE st.out (conforms cx e st.cache x) with
+      match liftE (fun _ => st.out) (conforms cx e st.cache x) with
       | .error a => .error a
       | .ok (.val b, c) => .ok (b, c)
       | .ok (.uncertain, _) => .error (.unsupported "comparison depends on an inexact float")
@@ -117,17 +120,17 @@ def checkFile (p : Plan) (st : ResSt) (e : Entry) : Except Abort ResSt :=
     let pre : Except Abort Memo := p.q.allFields.foldl (fun acc f =>
       match acc with
       | .error a => .error a
-      | .ok m => match liftE st.out (fieldValue p.cfg e f) with
+      | .ok m => match liftE (fun _ => st.out) (fieldValue p.cfg e f) with
         | .ok v => .ok (m.insert f.display v.text)
         | .error a => .error a) (.ok [])
     match pre with
     | .error a => .error a
     | .ok memo0 =>
-      match liftE st.out (evalColumns cx (some e) memo0 p.q.fields) with
+      match liftE (fun _ => st.out) (evalColumns cx (some e) memo0 p.q.fields) with
       | .error a => .error a
       | .ok (cols, m1) =>
         -- grouping expressions are evaluated for the memo
-        match liftE st.out (evalColumns cx (some e) m1 (p.q.grouping.filter fun g => (m1.get? g.display).isNone)) with
+        match liftE (fun _ => st.out) (evalColumns cx (some e) m1 (p.q.grouping.filter fun g => (m1.get? g.display).isNone)) with
         | .error a => .error a
         | .ok (_, m2) =>
           -- ordering keys
@@ -137,7 +140,7 @@ def checkFile (p : Plan) (st : ResSt) (e : Entry) : Except Abort ResSt :=
             | .ok (ks, m) =>
               match m.get? o.display with
               | some v => .ok (ks ++ [v], m)
-              | none => match liftE st.out (columnValue cx (some e) m o) with
+              | none => match liftE (fun _ => st.out) (columnValue cx (some e) m o) with
                 | .ok (v, m') => .ok (ks ++ [v.text], m')
                 | .error a => .error a) (.ok ([], m2))
           match keys with
@@ -152,7 +155,7 @@ def checkFile (p : Plan) (st : ResSt) (e : Entry) : Except Abort ResSt :=
                             raw := if p.q.hasAggregateColumn then st.raw ++ [m3] else st.raw }
             else
               let sep := if found > 1 then fmtSeparator p.q.format else []
-              .ok { st with cache := c, found := found, out := st.out ++ sep ++ row }
+              .ok { st with cache := c, found := found, outRev := (sep ++ row) :: st.outRev }
 
 def limitReached (p : Plan) (st : ResSt) : Bool :=
   !p.q.isBuffered && p.q.limit > 0 && p.q.limit ≤ st.found
@@ -361,7 +364,7 @@ def finish (p : Plan) (st : ResSt) : Except Abort (Str × Bool × List Nat) :=
   let fmt := p.q.format
   if p.q.hasAggregateColumn then
     if !p.q.grouping.isEmpty then
-      match liftE st.out (groupedRows p st.raw) with
+      match liftE (fun _ => st.out) (groupedRows p st.raw) with
       | .error a => .error a
       | .ok rowsX =>
         let inex := rowsX.any (·.2)
@@ -376,7 +379,7 @@ def finish (p : Plan) (st : ResSt) : Except Abort (Str × Bool × List Nat) :=
         let body := (rows.zipIdx.map fun (r, i) => (if i > 0 then fmtSeparator fmt else []) ++ fmtRow fmt r).flatten
         .ok (st.out ++ body ++ fmtFooter fmt, st.inexact || inex, ties)
     else
-      match liftE st.out (evalColumns (p.cx st.raw) none [] p.q.fields) with
+      match liftE (fun _ => st.out) (evalColumns (p.cx st.raw) none [] p.q.fields) with
       | .error a => .error a
       | .ok (cols, _) =>
         .ok (st.out ++ fmtRow fmt (cols.map fun c => (toLowerRust c.1, c.2.1)) ++ fmtFooter fmt,
